@@ -136,6 +136,9 @@ func (env *ExecEnv) expand(word ast.Word, mode ExpMode) (fields []*field, err er
 				}
 				fields[len(fields)-1].join(s, true)
 			case `"`:
+				if env.noFields(w.Value) {
+					break
+				}
 				word, err := env.expand(w.Value, mode&Arith|Quote)
 				if err != nil {
 					return nil, err
@@ -167,6 +170,21 @@ func (env *ExecEnv) expand(word ast.Word, mode ExpMode) (fields []*field, err er
 		}
 	}
 	return
+}
+
+// noFields reports whether the double-quoted word w consists only of
+// "$@" while there are no positional parameters; it generates zero
+// fields.
+func (env *ExecEnv) noFields(w ast.Word) bool {
+	if len(env.Args) > 1 || len(w) == 0 {
+		return false
+	}
+	for _, p := range w {
+		if pe, ok := p.(*ast.ParamExp); !ok || pe.Name.Value != "@" || pe.Op != "" {
+			return false
+		}
+	}
+	return true
 }
 
 // expandTilde performs tilde expansion.
